@@ -704,9 +704,6 @@ func (x *fx) instr(in ssa.Instruction) {
 	case *ssa.RunDefers:
 		x.runDefers()
 	case *ssa.Defer:
-		if x.curPC != "true" && x.curBlock.Index != 0 {
-			panic(unsupported("conditional defer"))
-		}
 		x.defers = append(x.defers, i)
 	case *ssa.Range:
 		x.vals[i] = &Val{T: i.Type(), S: "0"}
@@ -1073,7 +1070,13 @@ func (x *fx) typeAssert(i *ssa.TypeAssert) {
 func (x *fx) runDefers() {
 	for k := len(x.defers) - 1; k >= 0; k-- {
 		d := x.defers[k]
-		x.call(nil, d.Common())
+		// a defer statement that dominates this exit has certainly run; one that
+		// cannot reach it has not; anything else is outside the subset
+		if d.Block().Dominates(x.curBlock) {
+			x.call(nil, d.Common())
+		} else if x.blockReaches(d.Block(), x.curBlock) {
+			panic(unsupported("defer that runs only on some paths to a return"))
+		}
 	}
 }
 
@@ -1116,4 +1119,25 @@ func (x *fx) ret(i *ssa.Return) {
 func isF32(t types.Type) bool {
 	b, ok := t.Underlying().(*types.Basic)
 	return ok && b.Kind() == types.Float32
+}
+
+func (x *fx) blockReaches(from, to *ssa.BasicBlock) bool {
+	seen := map[int]bool{}
+	var dfs func(b *ssa.BasicBlock) bool
+	dfs = func(b *ssa.BasicBlock) bool {
+		if b == to {
+			return true
+		}
+		if seen[b.Index] {
+			return false
+		}
+		seen[b.Index] = true
+		for _, s := range b.Succs {
+			if dfs(s) {
+				return true
+			}
+		}
+		return false
+	}
+	return dfs(from)
 }
